@@ -367,6 +367,8 @@ def ob_roundtrip(sim, mode, dynamic, variant=None):
             # a first-order scheme on a damped mechanical problem: the speed is carried from step to step
             s.Set_Rayleigh_Damping_Coefs(coefM=0.0, coefK=0.2)
             s.Solver_Set_Parabolic_Algorithm(dt=0.1, alpha=0.5)
+        elif dynamic == "mixed":
+            pass                                   # the first step is static, the time scheme is switched on before the second one
         elif dynamic:
             if sim == "Thermal":
                 s.Solver_Set_Parabolic_Algorithm(dt=0.1, alpha=0.5)
@@ -375,6 +377,8 @@ def ob_roundtrip(sim, mode, dynamic, variant=None):
         saved_state, saved_results, named, saved_mats = [], [], [], []
         hist = []
         for k in range(3):
+            if dynamic == "mixed" and k == 1:
+                s.Solver_Set_Hyperbolic_Algorithm(dt=0.05)          # iteration 0 was stored under the static scheme: it carries no speed, no acceleration
             _bc(s, sim, k)
             solve()
             hist.append(f"Solve#{k}")
@@ -829,6 +833,9 @@ def build(tier, seed):
         for mode in modes:
             obs.append(Ob(f"C15.roundtrip.{sim}.{mode}", ob_roundtrip, (sim, mode, False), "X", (f"{SIMS[sim]}::{sim}.Save_Iter", f"{SIMS[sim]}::{sim}.Set_Iter", f"{SIMU}::_Simu.Get_results"),
                           bound="3 solve/save steps on a small mesh, one folder schedule", clause="restore / read / stored-iteration immutability", timeout=300))
+        if sim in ("Elastic", "Beam", "WeakForms"):
+            obs.append(Ob(f"C15.roundtrip.{sim}.mixed", ob_roundtrip, (sim, "memory", "mixed"), "X", (f"{SIMS[sim]}::{sim}.Save_Iter", f"{SIMS[sim]}::{sim}.Set_Iter", f"{SIMU}::_Simu._Set_solutions"),
+                          bound="one static step then two Newmark steps, in-memory history", clause="an iteration stored under the static scheme is restored with zero speed and acceleration, whatever the state current before the restore", timeout=300))
         if sim in ("Elastic", "WeakForms"):
             obs.append(Ob(f"C15.roundtrip.{sim}.parabolic", ob_roundtrip, (sim, "memory", "parabolic"), "X", (f"{SIMS[sim]}::{sim}.Save_Iter", f"{SIMS[sim]}::{sim}.Set_Iter"),
                           bound="3 steps of the theta scheme on a damped elastic problem, in-memory history", clause="the speed carried by a first-order scheme is restored with the displacement", timeout=300))
